@@ -1421,3 +1421,44 @@ def r20_11_half_built_image_is_freed_raw(ck, P, rid='C20-R10'):
                 ck.violation(R, f.name, 'finaliser on a half-built image', '%s releases the image through %s (%s) when %s has failed: the fields that the finaliser frees were never written on that path (the initialiser returns before storing them), so it frees what the fresh block happened to contain - a pointer left there by an image destroyed earlier is freed a second time' % (f.name, bad.callee, bad.loc(), g.name), bad.loc())
     if n == 0:
         raise AnalysisBroken('%s: no constructor with a fallible initialiser found' % rid)
+
+
+def r14_bits_setters_test_the_type(ck, P, rid='C14-R14'):
+    """Sibling agreement + union typestate: pixman_image_t is a union; the members of bits_image_t beyond the common part overlay the
+    colour of a solid fill and the stop array of a gradient.  An exported setter that stores into such a member does so only under a
+    test that the image is a bits image - as pixman_image_set_dither, _set_dither_offset and _set_accessors do."""
+    R = ck.rule(rid, 'every store into a field of bits_image_t that an exported function makes through its image parameter is guarded by a comparison of the image\'s type with BITS (taken on the equal side): pixman_image_set_indexed on a solid fill overwrites color_32 / color_float with the palette pointer (a solid red composites as 8b669060), on a gradient it overwrites the pointer that the finaliser frees', floor=4)
+    BITS = P.enum_const('BITS') if hasattr(P, 'enum_const') else 0
+    n = 0
+    for f in common.public_api(P):
+        if not f.params or 'pixman_image' not in f.params[0][1]:
+            continue
+        for x in f.insts():
+            if x.op != 'store':
+                continue
+            pa = f.path(x.a[1])
+            lf = f.last_field(pa) or ''
+            if not lf.startswith('bits_image.') or f.root(pa) != ('arg', 0):
+                continue
+            n += 1; ck.saw(f)
+            ok = False
+            for t, s in f.guard_edges(x.bb.id):
+                if t.op != 'br' or not t.a:
+                    continue
+                c, p, ops = f.cond(t.a[0])
+                if c is None or c.op != 'icmp' or p not in ('eq', 'ne') or len(ops) != 2:
+                    continue
+                if (p == 'eq') != (t.d['succ'][0] == s):
+                    continue
+                for i in (0, 1):
+                    y = f.v(f.strip_casts(ops[i])) if ops[i][0] == 'v' else None
+                    k = ops[1 - i]
+                    if y is not None and y.op == 'load' and y.ty == 'i32' and f.root(f.path(y.a[0])) == ('arg', 0) and (not f.path(y.a[0])[1] or (f.last_field(f.path(y.a[0])) or '').endswith('.type')) and k[0] == 'c' and int(k[1]) == BITS:
+                        ok = True
+            where = '%s: store to %s at %s' % (f.name, lf, x.loc())
+            if ok:
+                ck.ok(R, where, 'under type == BITS')
+            else:
+                ck.violation(R, f.name, 'store to %s without a type test' % lf, '%s stores into %s (%s) whatever kind of image it was handed: for a solid fill or a gradient that member of the union is the colour or the stop array, so the call silently changes what the image paints, or leaves a pointer the finaliser will free' % (f.name, lf, x.loc()), x.loc())
+    if n == 0:
+        raise AnalysisBroken('%s: no exported setter stores into a bits_image_t field' % rid)
